@@ -40,8 +40,8 @@ type cmpCase struct {
 	Rrank int             `json:"rrank"`
 }
 
-func pow2(n uint) *big.Rat { return new(big.Rat).SetInt(new(big.Int).Lsh(big.NewInt(1), n)) }
-func ri(n int64) *big.Rat   { return new(big.Rat).SetInt64(n) }
+func pow2(n uint) *big.Rat       { return new(big.Rat).SetInt(new(big.Int).Lsh(big.NewInt(1), n)) }
+func ri(n int64) *big.Rat        { return new(big.Rat).SetInt64(n) }
 func sub(a, b *big.Rat) *big.Rat { return new(big.Rat).Sub(a, b) }
 func neg(a *big.Rat) *big.Rat    { return new(big.Rat).Neg(a) }
 
